@@ -113,3 +113,24 @@ func init() {
 		os.Exit(0)
 	}
 }
+
+func init() {
+	if n := os.Getenv("ARVCHECK_DUMP"); n != "" {
+		pats := []string{"./lib/controller/...", "./sdk/go/arvados"}
+		if p := os.Getenv("ARVCHECK_DUMP_PKGS"); p != "" {
+			pats = []string{p}
+		}
+		w, err := Load("/repo", pats, false, nil)
+		if err != nil {
+			fmt.Println(err)
+			os.Exit(1)
+		}
+		fn := w.Fn(n)
+		if fn == nil {
+			fmt.Println("not found")
+			os.Exit(1)
+		}
+		fn.WriteTo(os.Stdout)
+		os.Exit(0)
+	}
+}
